@@ -250,7 +250,20 @@ func (g *genState) genOp() op {
 	case "GetMailboxFlags":
 		o.Box, o.N1 = g.box(), r.Pick(3)
 	case "AddDeletedSubscription":
-		if r.Chance(0.6) { // a fresh (name, remote id) pair: the table grows to several rows
+		if len(g.o.Subs) > 0 && r.Chance(0.4) {
+			// a name that is already recorded: its remote id is replaced (fresh id, its own id again, or the id of another entry: UNIQUE)
+			p := g.o.Subs[r.Pick(len(g.o.Subs))]
+			o.N1 = p[0]
+			switch x := r.Pick(10); {
+			case x < 6:
+				g.nextMbox++
+				o.N2 = g.nextMbox
+			case x < 8:
+				o.N2 = p[1]
+			default:
+				o.N2 = g.o.Subs[r.Pick(len(g.o.Subs))][1]
+			}
+		} else if r.Chance(0.6) { // a fresh (name, remote id) pair: the table grows to several rows
 			g.nextMbox++
 			o.N1, o.N2 = g.nextMbox, g.nextMbox
 		} else {
@@ -458,6 +471,13 @@ func corpusScenarios() []scenario {
 			txn{Ops: []op{{K: "DeleteMailbox", N1: 16}, {K: "DeleteMailbox", N1: 13}, {K: "DeleteMailbox", N1: 14}, {K: "DeleteMailbox", N1: 15}, {K: "GetDeletedSubscriptions"}}},
 			txn{Ops: []op{{K: "GetDeletedSubscriptions"}}, ReadOnly: true},
 			txn{Ops: []op{{K: "RemoveDeletedSubscription", N1: 23}, {K: "AddDeletedSubscription", N1: 31, N2: 41}, {K: "CreateMailbox", N1: 50, N2: 22, N3: 3, Flags: []string{}}, {K: "GetDeletedSubscriptions"}}}),
+		mk("deleted-subscription-recorded-twice",
+			txn{Ops: []op{{K: "CreateMailbox", N1: 11, N2: 21, N3: 5, Flags: []string{}}, {K: "CreateMailbox", N1: 12, N2: 22, N3: 6, Flags: []string{}}}},
+			txn{Ops: []op{{K: "DeleteMailbox", N1: 11}, {K: "AddDeletedSubscription", N1: 21, N2: 77}, {K: "GetDeletedSubscriptions"}}},
+			txn{Ops: []op{{K: "AddDeletedSubscription", N1: 21, N2: 77}, {K: "AddDeletedSubscription", N1: 30, N2: 40}, {K: "AddDeletedSubscription", N1: 30, N2: 41},
+				{K: "AddDeletedSubscription", N1: 21, N2: 78}, {K: "GetDeletedSubscriptions"}}},
+			txn{Ops: []op{{K: "AddDeletedSubscription", N1: 21, N2: 41}}}, // the remote id of another entry: UNIQUE, rolled back
+			txn{Ops: []op{{K: "DeleteMailbox", N1: 12}, {K: "RemoveDeletedSubscription", N1: 21}, {K: "AddDeletedSubscription", N1: 22, N2: 78}, {K: "GetDeletedSubscriptions"}}}),
 		mk("every-read-returns-three-distinct-rows",
 			txn{Ops: []op{
 				{K: "CreateMailbox", N1: 31, N2: 41, N3: 101, Flags: []string{"fa", "fb", "fc"}, Flags2: []string{"pa", "pb", "pc"}, Flags3: []string{"aa", "ab", "ac"}},
